@@ -78,8 +78,8 @@ class Outcome:
 
 class FunctionSpec:
     def __init__(self, qual, file, params, returns=None, requires=None, ensures=None, modifies=(), raises=None, loops=None,
-                 locals=None, decreases=None, generator=False, defaults=None, cls=None, ghost=None, pure=False, note='', name=None, constructs=None, globals_=None, isinstance_preds=None, opaque_functions=(), numpy_division=False):
-        self.name = name or qual; self.constructs = constructs; self.globals_ = globals_ or {}; self.isinstance_preds = isinstance_preds or {}; self.opaque_functions = set(opaque_functions); self.numpy_division = numpy_division
+                 locals=None, decreases=None, generator=False, defaults=None, cls=None, ghost=None, pure=False, note='', name=None, constructs=None, globals_=None, isinstance_preds=None, opaque_functions=(), numpy_division=False, returns_optional=False, var_keyword=False):
+        self.returns_optional = returns_optional; self.var_keyword = var_keyword; self.name = name or qual; self.constructs = constructs; self.globals_ = globals_ or {}; self.isinstance_preds = isinstance_preds or {}; self.opaque_functions = set(opaque_functions); self.numpy_division = numpy_division
         self.qual, self.file, self.params, self.returns = qual, file, params, returns
         self.requires = requires or (lambda o: BoolVal(True)); self.ensures = ensures or (lambda o, n, r: [])
         self.modifies = list(modifies); self.raises = raises or {}; self.loops = loops or {}; self.locals = locals or {}
@@ -244,6 +244,8 @@ class Engine:
                 if spec.generator: ret = self.term(s2, s2.yields)
                 elif o.kind == 'return' and o.val is not None and not isinstance(o.val, PNone): ret = self.term(s2, o.val)
                 else: ret = None
+                ret_none = BoolVal(True) if ret is None else (BoolVal(False) if getattr(o.val, 'none', False) is False else o.val.none)
+                if ret is None and getattr(spec, 'returns_optional', False): ret = FreshConst(spec.returns.sort(), 'no_result')
                 new = {p: s2.store[r] for p, r in self.param_roots.items()}
                 for p, r in self.param_roots.items():
                     if p not in spec.modifies:
@@ -251,7 +253,10 @@ class Engine:
                 if spec.returns is not None and ret is None and not spec.generator:
                     raise Unsupported('path returns None but contract declares a result')
                 import inspect
-                ens = spec.ensures(old, new, ret, self.view(s2)) if len(inspect.signature(spec.ensures).parameters) >= 4 else spec.ensures(old, new, ret)
+                loc = self.view(s2); loc['$result_none'] = ret_none
+                if ret is not None and not is_false(simplify(ret_none)) and not getattr(spec, 'returns_optional', False):
+                    self.oblige(s2, 'post', 'result_is_not_None', Not(ret_none))
+                ens = spec.ensures(old, new, ret, loc) if len(inspect.signature(spec.ensures).parameters) >= 4 else spec.ensures(old, new, ret)
                 for label, g in ens:
                     self.oblige(s2, 'post', label, g)
                 for exc, cond in spec.raises.items():
@@ -570,12 +575,15 @@ class Engine:
 
     def view(self, st):
         """current values by name for invariants"""
-        out = {}
+        out = {}; nones = {}
         for n, v in st.env.items():
             if isinstance(v, PMaybe): v = v.val
+            if isinstance(v, PNone): nones[n] = BoolVal(True)
             if isinstance(v, (PV, PRef, PTup)):
                 try: out[n] = self.term(st, v)
                 except Unsupported: pass
+                nn = getattr(v, 'none', False); nones[n] = BoolVal(False) if nn is False else nn
+        out['$none'] = nones            # name -> "is None" (for invariants / postconditions over optional locals)
         if st.yields is not None: out['$yields'] = st.store[st.yields.root]
         return out
 
@@ -650,7 +658,12 @@ class Engine:
             if n in h.env:
                 v = h.env[n]
                 if isinstance(v, PMaybe): v = v.val
-                if isinstance(v, PV): h.env[n] = PV(v.t, FreshConst(v.t.sort(), 'h_' + n), v.none if v.none is False else FreshConst(BoolSort(), 'hn'))
+                if isinstance(v, PNone):
+                    # None before the loop, assigned inside: any value of its declared type, or still None
+                    t = self.declared_local(n)
+                    if t is None or isinstance(t, (TList, TDict, TObj)): raise Unsupported('local %s is None before loop %d and assigned inside: its type must be declared (atoms only)' % (n, k_id))
+                    h.env[n] = PV(t, FreshConst(t.sort(), 'h_' + n), FreshConst(BoolSort(), 'hn_' + n))
+                elif isinstance(v, PV): h.env[n] = PV(v.t, FreshConst(v.t.sort(), 'h_' + n), v.none if v.none is False else FreshConst(BoolSort(), 'hn'))
                 elif isinstance(v, PRef) and n in assigned:
                     # the name may be rebound to another object: havoc by value into a fresh frozen root
                     h.env[n] = self.from_term(h, v.t, FreshConst(v.t.sort(), 'h_' + n), frozen=True)
@@ -667,11 +680,13 @@ class Engine:
             elif o.kind == 'break': exits.append(o.st)
             else: outs.append(o)
         ex = h.clone(); ex.pc += [lo <= hi if seq is not None else BoolVal(True), inv(ex, If(hi < lo, lo, hi) if seq is None else hi)]
-        if exits:
-            raise Unsupported('break in for-loop: not supported yet')
         for n in assigned:
             if n not in st.env and n in ex.env: del ex.env[n]
         if s.orelse: raise Unsupported('for-else')
+        # `break`: the state after the loop is either the regular exit (invariant at the end of the range) or one of the states that reached a break
+        # (the invariant held at the head of that iteration; the body ran up to the break).  All of them extend the havocked state h: joined under fresh choice variables.
+        for b in exits:
+            ex = self.merge(len(h.pc), FreshConst(BoolSort(), 'left_by_break'), b, ex)
         return outs + [Outcome(ex, 'fall')]
 
     def while_loop(self, s, st):
